@@ -843,3 +843,53 @@ def argon2_entry(prog):
 def is_argon2_call(prog, c):
     e = argon2_entry(prog)
     return e is not None and any(t.key == e.key for t in prog.callee_fns(c))
+
+
+def blake2b_init_roles(prog, call):
+    """{'outlen'|'key'|'salt'|'personal': argument index} of a call to the crate's BLAKE2b `State::init`:
+    the digest length is the `u8` parameter, the key the optional byte *slice*; the two optional 16-byte
+    arrays are told apart by the field of the parameter block they are stored in (BLAKE2b's parameter
+    block ends with salt, then personal: field order of the record the constructor builds).  Falls back
+    to the declared order (outlen, key, salt, personal)."""
+    out = {"outlen": 0, "key": 1, "salt": 2, "personal": 3}
+    gs = prog.callee_fns(call)
+    if len(gs) != 1:
+        return out
+    g = gs[0]
+    memo = prog.__dict__.setdefault("_b2_init_roles", {})
+    if g.key in memo:
+        return memo[g.key]
+    res = dict(out)
+    try:
+        ps = list(range(1, g.argc + 1))
+        u8s = [p for p in ps if g.locals[p]["t"] == "u8"]
+        slices = [p for p in ps if g.locals[p]["t"].replace("'_ ", "") in ("std::option::Option<&[u8]>",)]
+        arrays = [p for p in ps if "Option<&" in g.locals[p]["t"] and "[u8;" in g.locals[p]["t"]]
+        if len(u8s) == 1:
+            res["outlen"] = u8s[0] - 1
+        if len(slices) == 1:
+            res["key"] = slices[0] - 1
+        if len(arrays) == 2:
+            from ..inline import inline
+            v = inline(prog, g)
+            best = None
+            for b, i, st in v.assigns():
+                rv = st["rv"]
+                if rv["k"] == "agg" and rv.get("agg") == "adt" and len(rv.get("ops", [])) >= 4 and not rv.get("path", "").startswith("std::"):
+                    feeds = {}
+                    for idx, o in enumerate(rv["ops"]):
+                        ls = list(operand_locals(o))
+                        if not ls:
+                            continue
+                        back = v.backward_slice(ls) & set(arrays)
+                        if len(back) == 1:
+                            feeds[list(back)[0]] = idx
+                    if len(feeds) == 2:
+                        best = feeds
+            if best:
+                (pa, ia), (pb, ib) = sorted(best.items(), key=lambda kv: kv[1])
+                res["salt"], res["personal"] = pa - 1, pb - 1
+    except Exception:
+        res = dict(out)
+    memo[g.key] = res
+    return res
